@@ -151,7 +151,7 @@ def run_one(rng, counters):
         before = counters.get("phased_calls_judged", 0)
         viol = pipeline.judge_passthrough(sim.vcf, out, sim.doc, set(targets), set(opts.get("chromosomes") or []), opts["tag"],
                                           opts["only_snvs"], bool(opts.get("distrust_genotypes")), counters)
-        skipped = any(r["kind"] in ("multi", "symbolic", "noalt", "dup", "multidup") for r in sim.doc.records)
+        skipped = any(r["kind"] in ("multi", "symbolic", "noalt", "dup", "multidup", "indeldup") for r in sim.doc.records)
         nt = skipped and counters.get("phased_calls_judged", 0) > before
         return viol, nt, desc
     finally:
